@@ -67,6 +67,47 @@ def native_judge(cases_meta):
     return out
 
 
+RNG_SITES = [  # (lat, lon, gmt, params, start, end): ranges that cross into / out of the twilight-less season and year ends
+    (39.0, -77.0, -5.0, {"method": "Isna"}, "2023-12-20", "2024-01-10"),
+    (51.5074, -0.1278, 1.0, {"method": "Mwl"}, "2024-07-01", "2024-08-31"),
+    (51.5074, -0.1278, 1.0, {"method": "Mwl", "ext": "NearestGoodDayAllPrayersAlways"}, "2024-05-01", "2024-06-15"),
+    (-54.8, -68.3, -3.0, {"method": "Mwl"}, "2024-12-15", "2025-02-15"),
+    (60.17, 24.94, 2.0, {"method": "Isna", "ext": "SeventhOfNightFajrIshaInvalid"}, "2023-04-01", "2023-05-10"),
+    (64.1, -21.9, 0.0, {"method": "Egyptian", "ext": "AngleBased"}, "2024-02-20", "2024-03-31"),
+    (21.4, 39.8, 3.0, {"method": "UmmAlQurra"}, "2024-02-25", "2024-03-05"),
+]
+
+
+def rng_vs_single(rep, sites=RNG_SITES):
+    """Native differential (sampling, not the deciding step): the range API against the single-date API on ranges where the
+    per-day computation changes regime. Checks the assumption behind the recording stub (the loop has no state besides the date)."""
+    n = 0
+    for lat, lon, gmt, ps, a, b in sites:
+        base_c = {"lat": lat, "lon": lon, "gmt": gmt, "params": ps}
+        s, e = datetime.date.fromisoformat(a).toordinal(), datetime.date.fromisoformat(b).toordinal()
+        exp = [dstr(s + i) for i in range(e - s + 1)]
+        per = replay.run([dict(base_c, api="prayer_times_dt", date=d) for d in exp])
+        for api, extra in (("prayer_times_dt_rng", {}), ("prayer_times_dt_rng_block", {"min_days": 7})):
+            case = dict(base_c, api=api, start=a, end=b, **extra)
+            r = replay.run([case], single_timeout=60)[0]
+            if "days" not in r:
+                rep.violation("range-api-fails", "%s fails on %s..=%s at lat %s: %r" % (api, a, b, lat, r), [case], r)
+                continue
+            if sorted(r["days"].keys()) != exp:
+                rep.violation("range-api-days", "%s returned %d days for %s..=%s, expected %d" % (api, len(r["days"]), a, b, len(exp)),
+                              [case], {"days": sorted(r["days"].keys())[:5]})
+                continue
+            n += len(exp)
+            for d, pr in zip(exp, per):
+                if pr.get("times") != r["days"][d]:
+                    rep.violation("range-api-values", "%s %s..=%s at lat %s (%s): entry for %s differs from the single-date API: %r vs %r"
+                                  % (api, a, b, lat, ps, d, r["days"][d], pr.get("times")),
+                                  [dict(case, expect_day=d), dict(base_c, api="prayer_times_dt", date=d)],
+                                  {"range": r["days"][d], "single": pr.get("times")})
+                    break
+    rep.extra["range_vs_single_native"] = {"ranges": len(sites), "days compared": n}
+
+
 def run(rep):
     quick = rep.tier == "quick"
     ks = [0, 1, 2, 3, 4, 5, 7, 8, 12, 16, 31, 32, 33, 64] if quick else list(range(0, 65))
@@ -106,11 +147,15 @@ def run(rep):
             rep.violation(key, items[0][0], [c for _, c, _ in items[:20]], items[0][2])
         if not repro:
             rep.inconclusive.append("solver counterexamples did not reproduce natively: %r" % (metas[:3],))
+    rng_vs_single(rep)
     rep.samples = [{"obligation": o["name"], "status": o["status"], "paths": o.get("paths")} for o in rep.obligations[:6]]
 
 
 def judge_replay(case, results):
-    for c, r in zip(case.get("cases", [case]), results):
+    cs = case.get("cases", [case])
+    if len(cs) == 2 and cs[0].get("expect_day") and len(results) == 2:
+        return "days" not in results[0] or results[0]["days"].get(cs[0]["expect_day"]) != results[1].get("times")
+    for c, r in zip(cs, results):
         if "panic" in r or "timeout" in r or "crash" in r:
             return True
         s = datetime.date.fromisoformat(c["start"]).toordinal()
